@@ -14,8 +14,8 @@ impl Property for C14 {
     }
     fn runs(&self, tier: Tier) -> u64 {
         match tier {
-            Tier::Quick => 500,
-            Tier::Thorough => 10000,
+            Tier::Quick => 600,
+            Tier::Thorough => 12000,
         }
     }
     fn rule(&self) -> &'static str {
